@@ -382,7 +382,9 @@ fn generators_compaction_fold(recver: &mut FrameReceiver) -> (r: (HashMap<String
 
 // ================= C17, commands: "the latest definition of every command ... historical calls are not re-executed" --
 // the start-up loop of commands::serve registers every historical <name>.define, in order, and does nothing else
-pub enum CmdEv { Define(Frame, Seq<char>), Other }
+pub enum CmdEv { Define(Frame, Seq<char>), Exec(CommandR, Frame), Other }
+#[verifier::external_body] pub struct CommandR { _p: () }   // commands::serve::Command, opaque: the loop only passes it on
+impl Clone for CommandR { #[verifier::external_body] fn clone(&self) -> (r: CommandR) ensures r == *self { unimplemented!() } }
 pub struct Cx { pub ghost log: Seq<CmdEv> }
 #[verifier::external_body] pub struct Engine { _p: () }
 #[verifier::external_body] pub struct StoreC { _p: () }
@@ -439,6 +441,294 @@ fn commands_startup_fold(recver: &mut FrameReceiver, base_engine: Engine, store:
     Ghost(n)
 }
 //@@ end
+
+// ================= C18, generators: "A spawn that cannot be honoured ..." / "Each accepted <name>.spawn ..." -- handle_spawn_event, whole
+// function: a spawn for a name that is already running or without content is refused and changes nothing; an accepted one records
+// the task under the name (id and context of the spawn frame, expression = the content) and starts it exactly once
+//@@ item file=src/generators/serve.rs struct=GeneratorMeta
+//@@ make_pub
+//@@ end
+//@@ item file=src/generators/serve.rs struct=GeneratorTask
+//@@ make_pub
+//@@ end
+impl Default for GeneratorMeta { #[verifier::external_body] fn default() -> (r: GeneratorMeta) { unimplemented!() } }
+impl Clone for GeneratorMeta { #[verifier::external_body] fn clone(&self) -> (r: GeneratorMeta) ensures r == *self { unimplemented!() } }
+impl Clone for GeneratorTask { #[verifier::external_body] fn clone(&self) -> (r: GeneratorTask) ensures r == *self { unimplemented!() } }
+impl Clone for Integrity { #[verifier::external_body] fn clone(&self) -> (r: Integrity) ensures r == *self { unimplemented!() } }
+impl Clone for serde_json::Value { #[verifier::external_body] fn clone(&self) -> (r: serde_json::Value) ensures r == *self { unimplemented!() } }
+#[derive(Debug)] pub struct JsonError;
+#[derive(Debug)] pub struct CasError;
+#[derive(Debug)] pub struct IoError;
+impl From<CasError> for Error { #[verifier::external_body] fn from(e: CasError) -> (r: Error) { unimplemented!() } }
+impl From<IoError> for Error { #[verifier::external_body] fn from(e: IoError) -> (r: Error) { unimplemented!() } }
+#[verifier::external_body]
+pub fn json_from_value<T>(v: serde_json::Value) -> (r: Result<T, JsonError>) { unimplemented!() }
+pub uninterp spec fn cas_text(h: Integrity) -> Seq<char>;      // the stored content, as text (ASSUMED of cacache: a function of the hash)
+#[verifier::external_body] pub struct CasReader { _p: () }
+pub uninterp spec fn reader_of(r: &CasReader) -> Integrity;
+impl StoreH {
+    #[verifier::external_body]
+    pub fn cas_reader(&self, hash: Integrity) -> (r: Result<CasReader, CasError>) ensures r matches Ok(rd) ==> reader_of(&rd) == hash { unimplemented!() }
+}
+impl CasReader {
+    #[verifier::external_body]
+    pub fn read_to_string(&mut self, buf: &mut String) -> (r: Result<usize, IoError>)
+        ensures r is Ok ==> final(buf)@ == old(buf)@ + cas_text(reader_of(old(self))),
+    { unimplemented!() }
+}
+impl Clone for StoreH { #[verifier::external_body] fn clone(&self) -> (r: StoreH) { unimplemented!() } }
+impl Clone for EngineH { #[verifier::external_body] fn clone(&self) -> (r: EngineH) { unimplemented!() } }
+pub struct Gx { pub ghost spawned: Seq<GeneratorTask> }
+// spawn() as handle_spawn_event sees it: starts one instance of the task (its subscription: unit handler_ops, generator.spawn.*)
+#[verifier::external_body]
+pub fn spawn(Tracked(gx): Tracked<&mut Gx>, engine: EngineH, store: StoreH, task: GeneratorTask)
+    ensures final(gx).spawned == old(gx).spawned.push(task),
+{ unimplemented!() }
+spec fn task_of(t: GeneratorTask, name: Seq<char>, spawn_frame: Frame) -> bool {
+    t.id == spawn_frame.id && t.context_id == spawn_frame.context_id && t.topic@ == name
+        && spawn_frame.hash is Some && t.expression@ == cas_text(spawn_frame.hash.unwrap())
+}
+//@@ item file=src/generators/serve.rs fn=handle_spawn_event ret=r
+//@@ strip: async await
+//@@ rewrite: Result<(), Box<dyn std::error::Error + Send + Sync>> ==> ! Result<(), Error>
+//@@ rewrite: engine: nu::Engine ==> ! engine: EngineH
+//@@ rewrite: store: Store ==> ! store: StoreH
+//@@ rewrite: "Updating existing generator is not implemented".into() ==> Error::from("Updating existing generator is not implemented")
+//@@ rewrite: serde_json::from_value::<GeneratorMeta>(meta) ==> json_from_value::<GeneratorMeta>(meta)
+//@@ closure_spec: .and_then( ==> -> (o: Option<GeneratorMeta>) ensures true
+//@@ after_all: fn handle_spawn_event( ==> Tracked(gx): Tracked<&mut Gx>,
+//@@ after_all: spawn( ==> Tracked(gx),
+//@@ spec
+    requires obeys_key_model::<String>(), builds_valid_hashers::<std::hash::RandomState>(),
+    ensures
+        old(generators)@.contains_key(string_of(topic@)) ==> r is Err, //# generator.spawn_event.running_name_refused
+        frame.hash is None ==> r is Err, //# generator.spawn_event.missing_content_refused
+        r is Err ==> final(generators)@ == old(generators)@ && final(gx).spawned == old(gx).spawned, //# generator.spawn_event.refused_changes_nothing
+        r is Ok ==> final(gx).spawned.len() == old(gx).spawned.len() + 1 && final(gx).spawned.drop_last() == old(gx).spawned
+            && task_of(final(gx).spawned.last(), topic@, frame)
+            && final(generators)@ == old(generators)@.insert(string_of(topic@), final(gx).spawned.last()), //# generator.spawn_event.accepted_recorded_and_started_once
+//@@ prologue
+    broadcast use group_hash_axioms, axiom_string_ext, axiom_string_of_view, axiom_str_to_string, axiom_display_str, axiom_borrowed_str_contains;
+//@@ end
+
+// ================= C18, generators: the live loop of generators::serve -- every <name>.spawn is handed to try_start_task once, in
+// order; a <name>.stop schedules a restart of exactly the task registered under that name at that moment, and of nothing when the
+// name is unknown; no other frame has an effect. (The restart itself - sleep 1 s, spawn - is the elided async block.)
+pub enum GenEv { TryStart(Frame, Seq<char>), Respawn(GeneratorTask) }
+pub struct Px { pub ghost log: Seq<GenEv> }
+#[verifier::external_body]
+pub fn try_start_task(Tracked(px): Tracked<&mut Px>, topic: &str, frame: &Frame, generators: &mut HashMap<String, GeneratorTask>, engine: &EngineH, store: &StoreH)
+    ensures final(px).log == old(px).log.push(GenEv::TryStart(*frame, topic@)),
+{ unimplemented!() }
+pub mod tokio { pub mod task {
+    #[allow(unused_imports)] use super::super::*;
+    // tokio::task::spawn(async move { sleep(1 s); spawn(engine, store, task) }): the async block is elided, its captured task recorded
+    #[verifier::external_body]
+    pub fn spawn(Tracked(px): Tracked<&mut Px>, task: &GeneratorTask) ensures final(px).log == old(px).log.push(GenEv::Respawn(*task)) { unimplemented!() }
+} }
+// the effect of one frame, given the generator table as it is when the frame arrives
+pub open spec fn gen_events(f: Frame, table: Map<String, GeneratorTask>) -> Seq<GenEv> {
+    if has_suffix(f.topic@, ".spawn"@) { seq![GenEv::TryStart(f, strip(f.topic@, ".spawn"@))] }
+    else if has_suffix(f.topic@, ".stop"@) && table.contains_key(string_of(strip(f.topic@, ".stop"@))) { seq![GenEv::Respawn(table[string_of(strip(f.topic@, ".stop"@))])] }
+    else { Seq::empty() }
+}
+pub open spec fn gen_events_all(fs: Seq<Frame>, tables: Seq<Map<String, GeneratorTask>>) -> Seq<GenEv> decreases fs.len() {
+    if fs.len() == 0 || tables.len() != fs.len() { Seq::empty() }
+    else { gen_events_all(fs.drop_last(), tables.drop_last()) + gen_events(fs.last(), tables.last()) }
+}
+//@@ slice file=src/generators/serve.rs fn=serve name=generators_live_loop
+//@@ from: while let Some(frame) = recver.recv()
+//@@ from_nth: 1
+//@@ through_block
+//@@ strip: await
+//@@ after_all: try_start_task( ==> Tracked(px),
+//@@ elide_arg: tokio::task::spawn( ==> Tracked(px), &task
+//@@ rewrite: &mut generators ==> generators
+//@@ rewrite: &engine ==> engine
+//@@ rewrite: &store ==> store
+//@@ loop_spec: while let Some(frame) = recver.recv()
+    invariant
+        0 <= n <= all.len(), all == rem(old(recver)), rem(recver) == all.subrange(n, all.len() as int), tables.len() == n,
+        px.log =~= old(px).log + gen_events_all(all.subrange(0, n), tables), //# generator.live.spawn_started_stop_restarts_registered_task
+        // the table only changes where try_start_task was given the chance
+        forall|i: int| 0 <= i < n ==> !has_suffix((#[trigger] all[i]).topic@, ".spawn"@) ==> (if i + 1 < n { tables[i + 1] == tables[i] } else { generators@ == tables[i] }), //# generator.live.table_changed_only_by_spawns
+        obeys_key_model::<String>(), builds_valid_hashers::<std::hash::RandomState>(),
+        n == 0 ==> generators@ == old(generators)@, n > 0 ==> tables[0] == old(generators)@,
+    ensures
+        n == all.len(),
+    decreases all.len() - n,
+//@@ loop_top: while let Some(frame) = recver.recv()
+    broadcast use group_hash_axioms, axiom_pat_str, axiom_string_ext, axiom_string_of_view, axiom_str_to_string, axiom_borrowed_str_contains, axiom_borrowed_str_maps;
+    proof {
+        assert(frame == all[n]);
+        assert(all.subrange(n, all.len() as int).drop_first() =~= all.subrange(n + 1, all.len() as int));
+        assert(all.subrange(0, n + 1).drop_last() =~= all.subrange(0, n));
+        assert(all.subrange(0, n + 1).last() == all[n]);
+        let t0 = tables;
+        tables = tables.push(generators@);
+        assert(tables.drop_last() =~= t0);
+        assert(tables.last() == generators@);
+        n = n + 1;
+        assert(gen_events_all(all.subrange(0, n), tables) == gen_events_all(all.subrange(0, n - 1), t0) + gen_events(frame, generators@));
+    }
+    let ghost log0 = px.log;
+    let ghost table_now = generators@;
+//@@ header
+fn generators_live_loop(recver: &mut FrameReceiver, generators: &mut HashMap<String, GeneratorTask>, engine: &EngineH, store: &StoreH, Tracked(px): Tracked<&mut Px>) -> (r: Ghost<Seq<Map<String, GeneratorTask>>>)
+    requires obeys_key_model::<String>(), builds_valid_hashers::<std::hash::RandomState>(),
+    ensures
+        r@.len() == rem(old(recver)).len() && (r@.len() > 0 ==> r@[0] == old(generators)@)
+            && final(px).log =~= old(px).log + gen_events_all(rem(old(recver)), r@), //# generator.live.spawn_started_stop_restarts_registered_task
+        forall|i: int| 0 <= i < r@.len() ==> !has_suffix((#[trigger] rem(old(recver))[i]).topic@, ".spawn"@)
+            ==> (if i + 1 < r@.len() { r@[i + 1] == r@[i] } else { final(generators)@ == r@[i] }), //# generator.live.table_changed_only_by_spawns
+{
+    let ghost all = rem(recver);
+    let ghost mut n: int = 0;
+    let ghost mut tables: Seq<Map<String, GeneratorTask>> = Seq::empty();
+    proof { assert(all.subrange(0, 0) =~= Seq::<Frame>::empty()); assert(px.log + Seq::<GenEv>::empty() =~= px.log); }
+//@@ epilogue
+    proof { assert(all.subrange(0, n) =~= all); }
+    Ghost(tables)
+}
+//@@ end
+
+// ================= C16, handlers: "a new `.register` ... every live .register starts a handler" -- the live loop of
+// handlers::serve hands every frame whose topic ends in ".register" (and nothing else) to start_handler, once, in order, with
+// the name = the topic without that suffix; it gives up only when start_handler itself fails
+pub enum StartEv { Start(Frame, Seq<char>) }
+pub struct Lx { pub ghost started: Seq<StartEv>, pub ghost failed: bool }
+#[verifier::external_body] pub struct StoreH { _p: () }
+#[verifier::external_body] pub struct EngineH { _p: () }
+// start_handler as the loop sees it (its own contract: unit handler_ops)
+#[verifier::external_body]
+pub fn start_handler(Tracked(lx): Tracked<&mut Lx>, frame: &Frame, store: &StoreH, engine: &EngineH, topic: &str) -> (r: Result<(), Error>)
+    ensures final(lx).started == old(lx).started.push(StartEv::Start(*frame, topic@)), final(lx).failed == (r is Err),
+{ unimplemented!() }
+pub open spec fn registers_of(fs: Seq<Frame>) -> Seq<StartEv> decreases fs.len() {
+    if fs.len() == 0 { Seq::empty() }
+    else if has_suffix(fs.last().topic@, ".register"@) { registers_of(fs.drop_last()).push(StartEv::Start(fs.last(), strip(fs.last().topic@, ".register"@))) }
+    else { registers_of(fs.drop_last()) }
+}
+//@@ slice file=src/handlers/serve.rs fn=serve name=handlers_live_loop
+//@@ from: while let Some(frame) = recver.recv()
+//@@ from_nth: 1
+//@@ through_block
+//@@ strip: await
+//@@ after_all: start_handler( ==> Tracked(lx),
+//@@ loop_spec: while let Some(frame) = recver.recv()
+    invariant
+        0 <= n <= all.len(), all == rem(old(recver)), rem(recver) == all.subrange(n, all.len() as int), !lx.failed,
+        lx.started =~= old(lx).started + registers_of(all.subrange(0, n)), //# handlers.live.every_register_started_once_in_order
+    ensures
+        n == all.len(),
+    decreases all.len() - n,
+//@@ loop_top: while let Some(frame) = recver.recv()
+    broadcast use axiom_pat_str;
+    proof {
+        assert(frame == all[n]);
+        assert(all.subrange(n, all.len() as int).drop_first() =~= all.subrange(n + 1, all.len() as int));
+        assert(all.subrange(0, n + 1).drop_last() =~= all.subrange(0, n));
+        assert(all.subrange(0, n + 1).last() == all[n]);
+        n = n + 1;
+    }
+//@@ header
+fn handlers_live_loop(recver: &mut FrameReceiver, store: StoreH, engine: EngineH, Tracked(lx): Tracked<&mut Lx>) -> (r: Result<Ghost<int>, Error>)
+    requires !old(lx).failed,
+    ensures
+        // every frame consumed (all of them unless a start failed) was looked at exactly once
+        match r {
+            Ok(k) => k@ == rem(old(recver)).len() && final(lx).started =~= old(lx).started + registers_of(rem(old(recver))),
+            Err(_) => final(lx).failed && exists|k: int| 0 < k <= rem(old(recver)).len() && final(lx).started =~= old(lx).started + registers_of(rem(old(recver)).subrange(0, k)),
+        }, //# handlers.live.every_register_started_once_in_order
+{
+    let ghost all = rem(recver);
+    let ghost mut n: int = 0;
+    proof { assert(all.subrange(0, 0) =~= Seq::<Frame>::empty()); assert(lx.started + Seq::<StartEv>::empty() =~= lx.started); }
+//@@ epilogue
+    proof { assert(all.subrange(0, n) =~= all); }
+    Ok(Ghost(n))
+}
+//@@ end
+
+
+// ================= C19, commands: the live loop of commands::serve -- a <name>.define goes to handle_define, a <name>.call for a name
+// that is defined at that moment starts exactly one execution task, with the command registered under that name and that call
+// frame; a call for an unknown name and every other frame have no effect. (The task body is execute_command: unit handler_ops.)
+pub uninterp spec fn cmap(m: &CommandMap) -> Map<Seq<char>, CommandR>;
+impl CommandMap {
+    #[verifier::external_body]
+    pub fn get(&self, k: &String) -> (r: Option<&CommandR>)
+        ensures match r { Some(c) => cmap(self).contains_key(k@) && *c == cmap(self)[k@], None => !cmap(self).contains_key(k@) }
+    { unimplemented!() }
+}
+impl Clone for StoreC { #[verifier::external_body] fn clone(&self) -> (r: StoreC) { unimplemented!() } }
+pub mod tokio_rt {
+    #[allow(unused_imports)] use super::*;
+    // tokio::spawn(async move { execute_command(command, &frame, &store) ... }): the async block is elided, what it captured recorded
+    #[verifier::external_body]
+    pub fn spawn(Tracked(cx): Tracked<&mut Cx>, command: &CommandR, frame: &Frame) ensures final(cx).log == old(cx).log.push(CmdEv::Exec(*command, *frame)) { unimplemented!() }
+}
+pub open spec fn cmd_events(f: Frame, table: Map<Seq<char>, CommandR>) -> Seq<CmdEv> {
+    if has_suffix(f.topic@, ".define"@) { seq![CmdEv::Define(f, strip(f.topic@, ".define"@))] }
+    else if has_suffix(f.topic@, ".call"@) && table.contains_key(strip(f.topic@, ".call"@)) { seq![CmdEv::Exec(table[strip(f.topic@, ".call"@)], f)] }
+    else { Seq::empty() }
+}
+pub open spec fn cmd_events_all(fs: Seq<Frame>, tables: Seq<Map<Seq<char>, CommandR>>) -> Seq<CmdEv> decreases fs.len() {
+    if fs.len() == 0 || tables.len() != fs.len() { Seq::empty() }
+    else { cmd_events_all(fs.drop_last(), tables.drop_last()) + cmd_events(fs.last(), tables.last()) }
+}
+//@@ slice file=src/commands/serve.rs fn=serve name=commands_live_loop
+//@@ from: while let Some(frame) = recver.recv()
+//@@ from_nth: 1
+//@@ through_block
+//@@ strip: await
+//@@ after_all: handle_define( ==> Tracked(cx),
+//@@ elide_arg: tokio::spawn( ==> Tracked(cx), &command, &frame
+//@@ rewrite: tokio::spawn( ==> tokio_rt::spawn(
+//@@ rewrite: &mut commands ==> commands
+//@@ rewrite: &base_engine ==> base_engine
+//@@ rewrite: &store ==> store
+//@@ loop_spec: while let Some(frame) = recver.recv()
+    invariant
+        0 <= n <= all.len(), all == rem(old(recver)), rem(recver) == all.subrange(n, all.len() as int), tables.len() == n,
+        cx.log =~= old(cx).log + cmd_events_all(all.subrange(0, n), tables), //# command.live.define_registered_call_executed_once_if_defined
+        forall|i: int| 0 <= i < n ==> !has_suffix((#[trigger] all[i]).topic@, ".define"@) ==> (if i + 1 < n { tables[i + 1] == tables[i] } else { cmap(commands) == tables[i] }), //# command.live.table_changed_only_by_defines
+        n == 0 ==> cmap(commands) == cmap(old(commands)), n > 0 ==> tables[0] == cmap(old(commands)),
+    ensures
+        n == all.len(),
+    decreases all.len() - n,
+//@@ loop_top: while let Some(frame) = recver.recv()
+    broadcast use axiom_pat_str;
+    proof {
+        assert(frame == all[n]);
+        assert(all.subrange(n, all.len() as int).drop_first() =~= all.subrange(n + 1, all.len() as int));
+        assert(all.subrange(0, n + 1).drop_last() =~= all.subrange(0, n));
+        assert(all.subrange(0, n + 1).last() == all[n]);
+        let t0 = tables;
+        tables = tables.push(cmap(commands));
+        assert(tables.drop_last() =~= t0);
+        assert(tables.last() == cmap(commands));
+        n = n + 1;
+        assert(cmd_events_all(all.subrange(0, n), tables) == cmd_events_all(all.subrange(0, n - 1), t0) + cmd_events(frame, cmap(commands)));
+    }
+//@@ header
+fn commands_live_loop(recver: &mut FrameReceiver, base_engine: &Engine, store: &StoreC, commands: &mut CommandMap, Tracked(cx): Tracked<&mut Cx>) -> (r: Ghost<Seq<Map<Seq<char>, CommandR>>>)
+    ensures
+        r@.len() == rem(old(recver)).len() && (r@.len() > 0 ==> r@[0] == cmap(old(commands)))
+            && final(cx).log =~= old(cx).log + cmd_events_all(rem(old(recver)), r@), //# command.live.define_registered_call_executed_once_if_defined
+        forall|i: int| 0 <= i < r@.len() ==> !has_suffix((#[trigger] rem(old(recver))[i]).topic@, ".define"@)
+            ==> (if i + 1 < r@.len() { r@[i + 1] == r@[i] } else { cmap(final(commands)) == r@[i] }), //# command.live.table_changed_only_by_defines
+{
+    let ghost all = rem(recver);
+    let ghost mut n: int = 0;
+    let ghost mut tables: Seq<Map<Seq<char>, CommandR>> = Seq::empty();
+    proof { assert(all.subrange(0, 0) =~= Seq::<Frame>::empty()); assert(cx.log + Seq::<CmdEv>::empty() =~= cx.log); }
+//@@ epilogue
+    proof { assert(all.subrange(0, n) =~= all); }
+    Ghost(tables)
+}
+//@@ end
+
 
 } // verus!
 fn main() {}
